@@ -54,6 +54,7 @@ type bsim struct {
 	extPrefix    []string // per module: what external paths are prefixed with
 	refErrors    []refError
 	filterTypes  []string
+	faultKind    string // which kind of operation may fail in the current execution ("any": all)
 	// excludeSourceInfo: the current pipeline execution builds without source info (prelude only)
 	excludeSourceInfo bool
 	lintExcept        []string
@@ -129,6 +130,11 @@ func (p *readPolicy) Decide(s *sched.Sim, op sched.Op) sched.Decision {
 		kinds = []string{"read-err"}
 	}
 	if len(kinds) == 0 {
+		return sched.Decision{}
+	}
+	// one kind of operation is eligible per execution: the many Stat probes that come first would
+	// otherwise use up the fault budget before a file is opened or read
+	if m.faultKind != "any" && m.faultKind != op.Kind {
 		return sched.Decision{}
 	}
 	// an operation on a workspace-supplied well-known type is a preferred target: a failing read
@@ -625,6 +631,7 @@ func Run(tp *tape.Tape, env *engine.Env) *engine.Outcome {
 				m.cancelAt = 1 + tp.Draw("cancelat", len(m.ws.Files))
 			} else {
 				m.faults = true
+				m.faultKind = tape.Pick(tp, "fkind", []string{"get", "read", "any", "stat", "get", "read", "walk"})
 				m.faultRate = tape.Pick(tp, "frate", []int{6, 12, 3})
 				m.faultBudget = 1 + tp.Draw("fbudget", 2)
 			}
